@@ -197,6 +197,8 @@ def run(ctx):
     for r_ in sorted(rets, key=lambda n: n.lineno):
         ok, why = _domain_is_target_ancestor(fd, r_, tparam)
         c.ob("R7", ok, fd, f"domain-return:{norm(r_.value)[:40]}", why, r_)
+    # ---- R8 the exit set is scoped with separator-carrying id tests (frame: sibling regions untouched) ----
+    shared.dotted_id_tests(ctx, "R8")
     # twin agreement for the pairs (C03 depends on it) is checked under C05.R1
 
 
